@@ -306,6 +306,7 @@ def run(chk):
     _movopt_rule(chk, prog)
     _jumppair_rule(chk, prog)
     _alias_rule(chk, prog)
+    _order_rule(chk, prog)
 
 
 def _jumppair_rule(chk, prog):
@@ -513,6 +514,71 @@ def _alias_rule(chk, prog):
                                       "of a `set`): the inline code computes with the overwritten operand, the function call does not"
                                       % (x.text()[:60], a.text(), t, t, a.text()))
     chk.floor(rule, 3, n)
+
+
+def _order_rule(chk, prog):
+    """The inline reductions must apply their operands left to right exactly as the generic bodies do, because operator
+    methods are not commutative (a table with :+ is asked for the left form, with :r+ for the right one).  In every
+    instruction the reducers emit, the left operand is the part accumulated so far (args[0] at the start, the target
+    afterwards) and the right operand - a slot or an immediate taken from it - is the NEXT argument."""
+    rule = "C15-ORDER"
+    chk.rule(rule, "inline reducers emit each binary instruction as (accumulated left part, next argument): an immediate is always taken from the right operand")
+    cf = prog.tus["cfuns.c"]
+    n = 0
+    for name in ("opreduce", "compreduce"):
+        fn = cf.funcs.get(name)
+        if fn is None:
+            raise AnalysisBroken("%s not found" % name)
+        chk.analysed(fn)
+        IN, T = flow.condition_facts(fn)
+
+        def idx(e):
+            e = strip_casts(e)
+            if e.k == "sub" and is_ref(strip_casts(e.kids[0]), "args"):
+                return strip_casts(e.kids[1]).text().replace(" ", "")
+            return None
+        for x, S in flow.states_at(fn, IN, T):
+            if x.k != "call" or x.callee not in ("janetc_emit_ssi", "janetc_emit_sss") or len(x.args) < 6:
+                continue
+            left = strip_casts(x.args[3])
+            lidx = idx(left)
+            n += 1
+            chk.instance(rule)
+            if x.callee == "janetc_emit_sss":
+                ridx = idx(x.args[4])
+                good = ridx is not None and ((lidx is None and is_ref(left)) or (lidx == "0" and ridx == "1") or
+                                             (lidx is not None and ridx == lidx.replace("-1", "") and lidx.endswith("-1")) or
+                                             (left.k == "call" and left.callee == "janetc_cslot" and ridx == "0"))
+                what = "right operand args[%s]" % ridx
+            else:
+                # the immediate: which argument was tested by can_slot_be_imm on this path?
+                srcs = set()
+                for ps in S:
+                    for (op, l, r, toks, ln, rn) in ps:
+                        if ln is not None and ln.k == "call" and ln.callee == "can_slot_be_imm" and op == "!=":
+                            srcs.add(idx(ln.args[0]))
+                if x.args[4].v is not None:
+                    n -= 1
+                    chk.rules[rule]["instances"] -= 1
+                    continue        # literal immediate of a unary form (C15-VAROP compares those with the generic body)
+                if lidx is None and is_ref(left):
+                    # accumulator on the left: the immediate must come from a later argument
+                    good = bool(srcs) and "0" not in srcs
+                    ridx = "/".join(sorted(str(v) for v in srcs))
+                else:
+                    cands = [v for v in srcs if v is not None]
+                    ridx = cands[0] if len(cands) == 1 else None
+                    good = ridx is not None and ((lidx == "0" and ridx == "1") or
+                                                 (lidx is not None and lidx.endswith("-1") and ridx == lidx[:-2]))
+                what = "immediate from args[%s]" % ridx
+            if good:
+                chk.ok(rule, "%s: left %s, %s" % (name, left.text(), what))
+            else:
+                chk.violation(rule, "cfuns.c", name, "%s/%s" % (left.text().replace(" ", ""), what.replace(" ", "")), x.loc,
+                              "`%s` combines left operand %s with %s: that is not (accumulated part, next argument) - the operands "
+                              "are applied in a different order than the generic function applies them, so values with "
+                              "non-commutative operator methods get a different result" % (x.text()[:70], left.text(), what))
+    chk.floor(rule, 6, n)
 
 
 def _noops_rule(chk, prog):
